@@ -40,6 +40,15 @@ Proof.
   - unfold cnlmu. intros (l & -> & ->). reflexivity.
 Qed.
 
+Lemma mev_es_is_exp_of_log util g av c ch t :
+  mev_endogenous_sampling util g av c ch = Ok t
+  <-> exists l, logmev_endogenous_sampling util g av c ch = Ok l /\ t = EUn Exp l.
+Proof.
+  unfold mev_endogenous_sampling. split.
+  - intros H. apply bind_Ok in H as (l & Hl & [= <-]). eauto.
+  - intros (l & -> & ->). reflexivity.
+Qed.
+
 (* ... hence its value is exp of the log-probability: 0 when the latter is -inf *)
 Lemma ev_exp_of_log Phi en l :
   evalX Phi (EUn Exp l) en
